@@ -94,7 +94,7 @@ func (o KVOp) String() string {
 		return "SetLanguage(" + o.Lang + ")"
 	case "lock":
 		if o.Typ == 0 {
-			return "SetLock(0,·)"
+			return "SetLock(0," + strconv.FormatBool(o.On) + ")"
 		}
 		return "SetLock(" + TypName(o.Typ) + "," + strconv.FormatBool(o.On) + ")"
 	case "put":
